@@ -294,7 +294,8 @@ class PanicMeta:
         out = []
         for header, ops, (real,) in split_cases(cl, rl):
             for i, (op, r) in enumerate(zip(ops, real)):
-                if op.startswith("exec ") and " run=panic" in op and " run=1 " in (" " + r + " ") and "res=panic:" in r and i + 1 < len(ops):
+                # (a panicking call that also reconfigures the circuit mid-flight is not "as if it had not happened": skipped)
+                if op.startswith("exec ") and " run=panic" in op and " mid=" not in op and " run=1 " in (" " + r + " ") and "res=panic:" in r and i + 1 < len(ops):
                     kv = dict(t.split("=", 1) for t in op.split(" ") if "=" in t)
                     adv = int(kv.get("radv", "0"))
                     rk = dict(t.split("=", 1) for t in r.split(" ") if "=" in t)
